@@ -194,6 +194,16 @@ def regenerate():
            "(* every read (incl. format strings) of the residue-identifying attributes *)",
            "Definition residue_identity_reads : list (string * string * string) :=\n  "
            + clist([f"({cstr(a)}, {cstr(b)}, {cstr(c)})" for a, b, c in attr_uses(("chain_id", "res_num", "icode", "residue_label", "label"))]) + ".", ""]
+    # constants of ConformationContainer.sort_atoms_key
+    ctree = ast.parse((common.REPO / "propka" / "conformation_container.py").read_text())
+    skc = []
+    for n in ctree.body:
+        if isinstance(n, ast.Assign) and len(n.targets) == 1 and isinstance(n.targets[0], ast.Name) and n.targets[0].id in ("UNICODE_MULTIPLIER", "RESIDUE_MULTIPLIER") \
+                and isinstance(n.value, ast.Constant) and float(n.value.value) == int(float(n.value.value)):
+            skc.append((n.targets[0].id, int(float(n.value.value))))
+    if len(skc) != 2:
+        TABLE_ERRORS["sort_key_constants"] = "UNICODE_MULTIPLIER / RESIDUE_MULTIPLIER not found as integral literals"
+    inv += ["From Coq Require Import ZArith.", "Definition sort_key_constants : list (string * Z) :=\n  " + clist([f"({cstr(k)}, {v}%Z)" for k, v in skc]) + ".", ""]
     holders, events = global_object_events()
     inv += ["(* process-global objects (module-level / class-level instances of propka classes) and the self-attribute accesses of their methods *)",
             "Definition global_objects : list (string * string * string) :=\n  " + clist([f"({cstr(a)}, {cstr(b)}, {cstr(c)})" for a, b, c in holders]) + ".",
